@@ -207,11 +207,25 @@ def run(ctx):
                         ctx.violation(dict(sig0, kind="scale_receives_gradient", which=sn), dict(desc=desc))
                 # ---- in-place weight update: the next forward must re-quantize from the current float weights
                 if step < n_upd:
+                    mag = float(q.weight.detach().abs().max()) * float(r.uniform(2, 10))
+                    delta = (torch.from_numpy(r.standard_normal(tuple(q.weight.shape))) * mag).to(wd)
+                    style = ["no_grad_add_", "data_add_", "data_copy_", "sgd_step"][int(r.integers(4))]
+                    if style == "no_grad_add_":
+                        with torch.no_grad():
+                            q.weight.add_(delta)
+                    elif style == "data_add_":  # the classic manual SGD step: p.data.add_(-lr * p.grad)
+                        q.weight.data.add_(delta)
+                    elif style == "data_copy_":
+                        q.weight.data.copy_(q.weight.data + delta)
+                    else:
+                        q.weight.grad = (-delta).clone()
+                        torch.optim.SGD([q.weight], lr=1.0).step()
+                    ctx.count("weight_updates")
+                    ctx.see("update_styles", style)
+                    if r.random() < 0.5:  # an evaluation forward before looking at the weight (fills any cache)
+                        with torch.no_grad():
+                            model(x.detach())
                     with torch.no_grad():
-                        mag = float(q.weight.abs().max()) * float(r.uniform(2, 10))
-                        delta = (torch.from_numpy(r.standard_normal(tuple(q.weight.shape))) * mag).to(wd)
-                        q.weight.add_(delta)
-                        ctx.count("weight_updates")
                         qw = q.qweight
                         dqw = oracles.plain(qw.dequantize()).to(F64)
                         w_now = q.weight.detach().to(F64)
@@ -222,8 +236,32 @@ def run(ctx):
                         step_bound = sc * code_step + w_now.abs() * 0.26 + 8 * num.eps(wd) * w_now.abs()
                         stale = (dqw - w_now).abs() > step_bound
                         if stale.any():
-                            ctx.violation(dict(sig0, kind="forward_uses_stale_quantized_weight"),
+                            ctx.violation(dict(sig0, kind="forward_uses_stale_quantized_weight", update=style),
                                           dict(desc=desc, step=step, **oracles._first(stale, dq=dqw, w=w_now)))
+                        # and the forward itself (evaluation mode) must use that weight
+                        xe = torch.from_numpy(r.standard_normal(xshape)).to(wd)
+                        seen.clear()
+                        oe = model(xe)
+                        oe = oracles.plain(oe.dequantize() if hasattr(oe, "qtype") else oe).to(F64)
+                        if aq is None:
+                            Xe = xe.to(F64)
+                            be = q.bias.detach().to(F64) if q.bias is not None else None
+                            if conv:
+                                hp = dict(stride=q.stride, padding=q.padding, dilation=q.dilation, groups=q.groups)
+                                refe = torch.nn.functional.conv2d(Xe, dqw, be, **hp)
+                                ade = torch.nn.functional.conv2d(Xe.abs(), dqw.abs(), None, **hp)
+                                Ke = dqw[0].numel()
+                            else:
+                                refe = torch.nn.functional.linear(Xe, dqw, be)
+                                ade = torch.nn.functional.linear(Xe.abs(), dqw.abs())
+                                Ke = dqw.shape[1]
+                            tole = num.dot_bound(refe, ade, 0.0 if be is None else (be.abs().reshape(1, -1, 1, 1) if conv else be.abs()),
+                                                 Ke, wd) + 2 * num.eps(wd) * ade
+                            ctx.count("eval_forwards_after_update")
+                            rep = refe.abs() <= 0.98 * num.fmax(wd)
+                            if tuple(oe.shape) == tuple(refe.shape) and bool((rep & ~((oe - refe).abs() <= tole)).any()):
+                                ctx.violation(dict(sig0, kind="forward_after_update_differs_from_twin", update=style),
+                                              dict(desc=desc, step=step))
             if len(xshape) != 3 or upk in ("transposed", "expanded") or n_upd >= 1:
                 ctx.nontrivial(tuple(sorted((k, str(v)) for k, v in desc.items() if k != "case")))
             if i % 41 == 0:
